@@ -128,13 +128,16 @@ mod verif_toggle {
     #[kani::unwind(14)]
     #[kani::stub(crate::formatter::TokenMarker::mark, mark_model)]
     fn toggle_regions_3tokens() {
-        // each token: 0 = `{pasfmt off}`, 1 = `{pasfmt on}`, 2 = other comment, 3 = code
+        // each token: 0 = `{pasfmt off}`, 1 = `{pasfmt on}`, 2 = other comment, 3 = code, 4 = the end-of-file token
+        // (a region that is still open at the end of the text includes the end-of-file token: its leading blanks are the
+        // file's trailing blanks, which C07 keeps byte for byte)
         let k: [u8; 3] = kani::any();
-        kani::assume(k[0] <= 3 && k[1] <= 3 && k[2] <= 3);
+        kani::assume(k[0] <= 4 && k[1] <= 4 && k[2] <= 4);
         let mk = |c: u8| match c {
             0 => Token::new_ref("{pasfmt off}", 0, TokenType::Comment(CommentKind::InlineBlock)),
             1 => Token::new_ref("{pasfmt on}", 0, TokenType::Comment(CommentKind::InlineBlock)),
             2 => Token::new_ref("{pasfmt of}", 0, TokenType::Comment(CommentKind::InlineBlock)),
+            4 => Token::new_ref(" \n", 2, TokenType::Eof),
             _ => Token::new_ref("pasfmt", 0, TokenType::Identifier),
         };
         let toks = [mk(k[0]), mk(k[1]), mk(k[2])];
@@ -144,6 +147,7 @@ mod verif_toggle {
         let mut i = 0;
         kani::cover!(k[0] == 0 && k[1] == 3 && k[2] == 1, "off, code, on");
         kani::cover!(k[0] == 3 && k[1] == 0 && k[2] == 3, "code, off, code");
+        kani::cover!(k[0] == 0 && k[1] == 3 && k[2] == 4, "off, code, end of file");
         while i < 3 {
             let mut expect = off;
             if k[i] == 0 {
